@@ -2,6 +2,7 @@ package sym
 
 import (
 	"fmt"
+	"strconv"
 
 	"golang.org/x/tools/go/ssa"
 )
@@ -78,6 +79,31 @@ func registerMisc(reg func(string, intrinsic)) {
 		sl, _ := agg.E[1].(SliceV)
 		return in.mkStr(in.bytesOf(sl))
 	})
+
+	// strconv formatting of numbers: exact for concrete operands, an opaque
+	// placeholder string otherwise (message text is never the subject of a property)
+	numFmt := func(signed bool) intrinsic {
+		return func(in *Interp, fn *ssa.Function, a []Value) Value {
+			x := a[0].(*Term)
+			base := 10
+			if len(a) > 1 {
+				if b, ok := a[1].(*Term); ok && b.IsConst() {
+					base = int(b.C)
+				}
+			}
+			if x.IsConst() && base >= 2 && base <= 36 {
+				if signed {
+					return StrV{S: strconv.FormatInt(sext64(x.C, x.S.W), base)}
+				}
+				return StrV{S: strconv.FormatUint(x.C, base)}
+			}
+			in.ex.noteStub("strconv number formatting with a symbolic operand returns a placeholder string")
+			return StrV{S: "<num>"}
+		}
+	}
+	reg("strconv.FormatUint", numFmt(false))
+	reg("strconv.FormatInt", numFmt(true))
+	reg("strconv.Itoa", numFmt(true))
 
 	reg("runtime.SetFinalizer", func(in *Interp, fn *ssa.Function, a []Value) Value { return nil })
 	reg("os.Exit", func(in *Interp, fn *ssa.Function, a []Value) Value {
